@@ -222,6 +222,7 @@ func pipeRules(c *Ctx) {
 	c.pipeHolders()
 	c.uniqRules()
 	c.emptyNameRule()
+	c.nameTotalRule(namerName)
 	c.complexMove(namerName)
 }
 
@@ -722,6 +723,77 @@ func (c *Ctx) skipSchemasValue(fi *core.FuncInfo, opt ast.Expr, depth int) *expr
 		return res
 	}
 	return nil
+}
+
+// nameTotalRule (C03/C02, NAME-TOTAL): the namer does nothing — silently — when the function that derives candidate
+// names from a key returns none. Names of schemas under a path are derived from the operations of that path, which
+// need not exist (a path item with parameters only) or need not be known to the naming index; so the derivation
+// must have a fallback: after the candidates have been collected from the key's classification, an emptiness test
+// of the candidate list whose branch fills it. Without it a complex schema stays inline after a full flatten (C03)
+// and an anonymous pointer is left in place (C02), with Flatten returning nil.
+func (c *Ctx) nameTotalRule(namer *core.FuncInfo) {
+	n := 0
+	for _, fi := range core.SortedSet(c.P.Reachable(namer)) {
+		if fi.Pkg.PkgPath != core.ModPath {
+			continue
+		}
+		sig := fi.Obj.Type().(*types.Signature)
+		if sig.Results().Len() != 1 {
+			continue
+		}
+		rs, ok := sig.Results().At(0).Type().Underlying().(*types.Slice)
+		if !ok || !core.IsString(rs.Elem()) {
+			continue
+		}
+		hasKey := false
+		for i := 0; i < sig.Params().Len(); i++ {
+			if _, tn := core.NamedOf(sig.Params().At(i).Type()); tn == "SplitKey" {
+				hasKey = true
+			}
+		}
+		if !hasKey {
+			continue
+		}
+		n++
+		info := c.info(fi)
+		fallback := false
+		ast.Inspect(fi.Decl.Body, func(nd ast.Node) bool {
+			ifs, ok := nd.(*ast.IfStmt)
+			if !ok {
+				return true
+			}
+			for _, cd := range core.SplitCond(ifs.Cond, false) {
+				x, empty, isE := core.EmptyTest(info, cd)
+				if !isE || !empty {
+					continue
+				}
+				o := core.ObjOf(info, x)
+				if o == nil || !core.IsSlice(o.Type()) {
+					continue
+				}
+				// the branch fills the list it found empty
+				ast.Inspect(ifs.Body, func(m ast.Node) bool {
+					if as, ok := m.(*ast.AssignStmt); ok {
+						for _, l := range as.Lhs {
+							if core.ObjOf(info, l) == o {
+								fallback = true
+							}
+						}
+					}
+					return true
+				})
+			}
+			return true
+		})
+		for _, prop := range []string{"C03", "C02"} {
+			c.S.Decide(fallback, prop, "NAME-TOTAL", fi.QName(), c.P.Pos(fi.Decl.Pos()),
+				"the list of candidate names is given a fallback when the key's classification yields none",
+				fi.Name()+" can return no candidate name at all (the candidates depend on operations that need not exist under the key's path, and no branch fills the list when it is empty): the namer then does nothing and returns nil — the schema stays inline, or the anonymous pointer stays, after a successful Flatten")
+		}
+	}
+	if n < 1 {
+		c.S.Note("NAME-TOTAL: no function deriving candidate names from a split key found below the namer")
+	}
 }
 
 // emptyNameRule (C02, GUARD-EMPTYNAME): in the loop over candidate names that hands each name to the unique-name
